@@ -35,6 +35,7 @@ DOCS = {
     # addressable entities that own no scenario at all: an outline with a header-only Examples table, a Rule without scenarios
     "childless": F([S(1), O(1, [(0, [])]), R([]), R([S(1)])]),
     "two-scenarios": F([S(1), S(1)]),
+    "with-stepless": F([S(1), S(0), S(1), R([S(0), S(1)])]),
     "rules-only": F([R([S(1), O(1, [(2, [])])], tags=["r1"]), R([S(1)])]),
     # @setup/@teardown exempt only the scenario that carries the tag itself, not what inherits it from a feature or rule
     "inherited-setup": F([S(1), S(1, tags=["setup"]), R([S(1), S(1)], tags=["setup"])], tags=["teardown"]),      # nothing directly under the feature
@@ -189,6 +190,24 @@ def h_files(sx):
         exp = _expected(rds[fi], lines)
         got = _observed(f, rds[fi])
         obs.append(sorted(got))
+        if p.get("run"):
+            # ... and a run of the selected feature leaves every unaddressed scenario skipped (also one without steps)
+            from behave.runner import ModelRunner, Context
+            from behave.step_registry import StepRegistry
+            from vlib.world import base_config
+            reg = StepRegistry()
+            reg.add_step_definition("step", u"{anything}", lambda context, anything: None)
+            r_ = ModelRunner(base_config(("--no-summary",)), features=[f], step_registry=reg)
+            r_.context = Context(r_)
+            r_.formatters = []
+            try:
+                r_.run_model()
+                stt = {e.eid: o.status.name for o, e in zip(f.walk_scenarios(), rds[fi].features[0].scenarios())}
+            except Exception as ex:     # noqa
+                stt = {"<exception>": repr(ex)}
+            wrong = {k: v for k, v in stt.items() if (k in exp) != (v != "skipped")}
+            sx.check(not wrong, "C10.files.run:addressed-run-others-skipped",
+                     detail=lambda m, lines=lines, stt=stt, wrong=wrong: {"args": args, "lines": lines, "statuses": stt, "wrong": wrong})
         sx.check(got == exp, "C10.files.selected==union-of-addressed-entities",
                  detail=lambda m, fi=fi, lines=lines, got=got, exp=exp: {"args": args, "file": docs[fi], "lines": lines, "selected": sorted(got),
                                                                        "expected": sorted(exp), "entities": [(ln, e.eid) for ln, e in entities(rds[fi])]})
@@ -251,6 +270,8 @@ def jobs(tier, seed):
                   reach=["C10.files.selected==union-of-addressed-entities"], min_paths=50, cost=2000, validate=40, closure=False))
     js.append(Job("files.listfile", "props.c10:h_files", {"docs": ["rule", "plain"], "pattern": [0, 1, 1], "small_lines": True, "listfile": True},
                   reach=["C10.files.selected==union-of-addressed-entities"], min_paths=50, cost=2000, validate=40, closure=False))
+    js.append(Job("files.run.with-stepless", "props.c10:h_files", {"docs": ["with-stepless"], "pattern": [0], "run": True},
+                  reach=["C10.files.run:addressed-run-others-skipped"], min_paths=8, cost=300, validate=40, closure=False))
     # three locations of one small file (overlapping ones included: two lines of one scenario, a rule and one of its scenarios)
     js.append(Job("files.triple.small", "props.c10:h_files", {"docs": ["two-scenarios"], "pattern": [0, 0, 0]},
                   reach=["C10.files.selected==union-of-addressed-entities"], min_paths=100, cost=3000, validate=40, closure=False))
